@@ -57,6 +57,9 @@ func ServeIfWorker(t *testing.T, reg Registry) {
 	})
 }
 
+// ToResult converts exploration stats to the worker result shape.
+func ToResult(st *Stats) JobResult { return toResult(st) }
+
 func toResult(st *Stats) JobResult {
 	return JobResult{Executions: st.Executions, MaxPoints: st.MaxPoints, Outcomes: st.Outcomes, Deadlocks: st.Deadlocks, Capped: st.Capped, Divergences: st.Divergences, Violations: st.Violations, Elided: st.Elided}
 }
